@@ -64,8 +64,12 @@ Definition stoich_of (rx : rxn) : side * side := (r_lhs rx, r_rhs rx).
 (** the reactions of a network as a multiset (list up to permutation) of (rule, reactants, products) *)
 Definition rxns_of (H : net) : list rxn := (map_to_list (edges H)).*2.
 
-(** [A-Za-z][A-Za-z0-9_]* *)
-Definition label_char (a : ascii) : bool := is_alpha a || is_digit a || is_char "_" a.
+(** the label domain of the text format: what the parser's glued-coefficient pattern (digits, then a letter, then anything)
+    and its separators accept, i.e. a letter followed by any characters except white space and the four characters
+    the format itself uses: '+' (term separator), '*' (coefficient separator), '|' (suffix separator), '>' (arrow).
+    Covers identifiers, formulae and SMILES-like labels such as CC(=O)O, C#C, Fe(OH)3, c1ccccc1, C[C@H](N)C(=O)O. *)
+Definition label_char (a : ascii) : bool :=
+  negb (py_space a) && negb (is_char "+" a) && negb (is_char "*" a) && negb (is_char "|" a) && negb (is_char ">" a).
 Definition valid_label (s : string) : bool :=
   match to_chars s with a :: t => is_alpha a && forallb label_char t | [] => false end.
 (** a rule name survives  "| rule=<name>"  iff it is non-empty and blank-free *)
